@@ -25,7 +25,15 @@ cp -r "$VERIF/sim/overlay/internal/." "$SCR/src/internal/" || die "overlay copy 
 "$VERIF/bin/instrument" -dir "$SCR/src" -out "$SCR/sites.json" >"$SCR/instrument.log" 2>&1 || { cat "$SCR/instrument.log" >&2; die "instrumentation failed"; }
 cd "$SCR/src" || die cd
 if [ "${VERIF_SKIP_SUITE:-0}" != 1 ]; then
-  $GO test -vet=off -count=1 ./... >"$SCR/suite.log" 2>&1 || { tail -30 "$SCR/suite.log" >&2; die "repository test suite fails on the instrumented copy (or does not build)"; }
+  # behaviour-preservation guard for the splices: damage would fail every time,
+  # so one pass out of three attempts is enough (a tree whose own suite is flaky
+  # must not be mistaken for splice damage)
+  ok=0
+  for attempt in 1 2 3; do
+    if $GO test -vet=off -count=1 -parallel 1 ./... >"$SCR/suite.log" 2>&1; then ok=1; break; fi
+    grep -q "build failed\|cannot find\|syntax error" "$SCR/suite.log" && break
+  done
+  [ $ok = 1 ] || { tail -30 "$SCR/suite.log" >&2; die "repository test suite fails on the instrumented copy (or does not build)"; }
 fi
 if [ "$MODE" = plain ] || [ "$MODE" = both ]; then
   $GO build -o "$SCR/jmsim" ./internal/simharness >"$SCR/build.log" 2>&1 || { tail -30 "$SCR/build.log" >&2; die "harness build failed"; }
